@@ -124,12 +124,69 @@ int __wrap_unlink(const char *p) {
 }
 #endif
 
+/* ---- observation of every obsolete-file collection (ldb_remove_obsolete_files) ----
+ * The collector calls ldb_versions_add_files(versions, &live) [live already holds pending_outputs], then
+ * ldb_get_children, then ldb_remove_file for every name it decided to drop. Printed as
+ *   GC live=<n,..> log=<n> prev=<n> man=<n> dir=<hex,..>     and     GCRM <hex name>
+ * and replayed on the model of the collector (coq/theories/Gc.v) by checks/k2lib.py. */
+void __real_ldb_versions_add_files(ldb_versions_t *vset, rb_set64_t *live);
+int __real_ldb_get_children(const char *path, char ***out);
+int __real_ldb_remove_file(const char *filename);
+static int g_gc_phase = 0;     /* 1: add_files seen (state printed), 2: listing printed, removals are the collector's */
+static int g_gc_off = -1;
+static int g_quiet_flag_ptr_is_zero(void);
+static int gc_watch(void) {
+  if (g_gc_off < 0) g_gc_off = getenv("K2_NOEDIT") != NULL;
+  return !g_gc_off && g_quiet_flag_ptr_is_zero();
+}
+void __wrap_ldb_versions_add_files(ldb_versions_t *vset, rb_set64_t *live) {
+  __real_ldb_versions_add_files(vset, live);
+  if (gc_watch()) {
+    rb_iter_t it; int first = 1;
+    printf("GC live=");
+    rb_set64_each(live, it) { printf("%s%llu", first ? "" : ",", (unsigned long long)rb_key_ui(it)); first = 0; }
+    if (first) printf(".");
+    printf(" log=%llu prev=%llu man=%llu", (unsigned long long)vset->log_number, (unsigned long long)vset->prev_log_number,
+           (unsigned long long)vset->manifest_file_number);
+    g_gc_phase = 1;
+  }
+}
+int __wrap_ldb_get_children(const char *path, char ***out) {
+  int len = __real_ldb_get_children(path, out);
+  if (g_gc_phase == 1) {
+    int i; size_t j;
+    printf(" dir=");
+    for (i = 0; i < len; i++) {
+      const char *nm = (*out)[i];
+      if (i) printf(",");
+      for (j = 0; nm[j]; j++) printf("%02x", (unsigned char)nm[j]);
+    }
+    if (len <= 0) printf(".");
+    printf("\n");
+    g_gc_phase = 2;
+  }
+  return len;
+}
+int __wrap_ldb_remove_file(const char *filename) {
+  if (g_gc_phase == 2) {
+    const char *b = strrchr(filename, '/'); size_t j;
+    b = b ? b + 1 : filename;
+    printf("GCRM ");
+    for (j = 0; b[j]; j++) printf("%02x", (unsigned char)b[j]);
+    printf("\n");
+  }
+  return __real_ldb_remove_file(filename);
+}
+
 /* ---- observation of every installed edit ---- */
 int __real_ldb_versions_apply(ldb_versions_t *vset, ldb_edit_t *edit, ldb_mutex_t *mu);
 static int g_quiet = 0;    /* > 0 while a second handle (backup/copy/failed open, k2_life.h) is at work: its edits are not the history's */
+static int g_quiet_flag_ptr_is_zero(void) { return g_quiet == 0; }
 int __wrap_ldb_versions_apply(ldb_versions_t *vset, ldb_edit_t *edit, ldb_mutex_t *mu) {
   rb_iter_t it; size_t i; int rc; int first;
   uint64_t snap = vset->last_sequence;
+  if (g_gc_phase == 1) printf("\n");
+  g_gc_phase = 0;
   static int noedit = -1;
   if (noedit < 0) noedit = getenv("K2_NOEDIT") != NULL;   /* threaded runs: the background thread's edits would interleave with RET lines */
   if (g_quiet || noedit) return __real_ldb_versions_apply(vset, edit, mu);
@@ -318,6 +375,8 @@ int main(int argc, char **argv) {
   while (getline(&line, &cap, stdin) > 0) {
     int n = split_line(line, a, 16);
     if (n == 0) continue;
+    if (g_gc_phase == 1) printf("\n");
+    g_gc_phase = 0;
     printf("CALL %ld %s\n", callno, a[0]);
     k3_mark('A', callno, a[0]);
     callno++;
